@@ -85,7 +85,8 @@ func (le *luaEncoder) encodeString(writer io.Writer, node *CandidateNode) error 
 	switch node.Style {
 	case LiteralStyle, FoldedStyle, FlowStyle:
 		for i := 0; i < 10; i++ {
-			if !strings.Contains(node.Value, "]"+strings.Repeat("=", i)+"]") {
+			// the closing bracket must not occur in the text, nor be completed by a `]` the text ends with
+			if !strings.Contains(node.Value+"]", "]"+strings.Repeat("=", i)+"]") {
 				err := writeString(writer, "["+strings.Repeat("=", i)+"[\n")
 				if err != nil {
 					return err
